@@ -146,10 +146,252 @@ class SRoot(_Assumed):
         return e
 
 
+# --- precursor states ------------------------------------------------------------------
+# |I#>^(n) = C_I |Psi>^(n)
+#            - [PP] sum_{k+a+b+c=n} N^(k) |Psi^(a)> <Psi^(b)| C_I |Psi^(c)>
+#            - sum_{lower classes L} 1/(n_o! n_v!)_L sum_{k+a+b+c=n} N^(k) |J_L^(a)> <J_L^(b)| C_I |Psi^(c)>
+# (Gram-Schmidt orthogonalisation against the ground state and the intermediate states of
+# the lower excitation classes; unrestricted sum over the indices of J_L), and the adjoint
+# formula for bra states.  Values are taken under an arbitrary linear functional on the
+# formal sums of states (spec/series.py: word_value).
+from spec.series import word_value, nc_linear_value
+
+
+def _psi_word(order_t, bkcode):
+    """([] if order == 0 else [PSI]) as a pair (is_zero, atom)"""
+    return (order_t == 0, c02.PSI(order_t, bkcode))
+
+
+def _vev_optional(parts):
+    """VEV of a word whose entries (zero_cond, atom) are dropped when
+    zero_cond holds (Psi^(0) = 1); zero_cond None: always present"""
+    def rec(i, word):
+        if i == len(parts):
+            return VEV(NO_RULES, tuple(word))
+        cond, atom = parts[i]
+        if cond is None:
+            return rec(i + 1, word + [atom])
+        return z3.If(cond, rec(i + 1, word), rec(i + 1, word + [atom]))
+    return rec(0, [])
+
+
+def _state_value(cond, atom):
+    return WORDVAL(atom) if cond is None else z3.If(cond, z3.RealVal(1), WORDVAL(atom))
+
+
+def prec_operator_atom(vc, indices, braket):
+    """NO(C_I) resp. NO(C_I^dagger) for the target indices of the state"""
+    names = G.split_names(indices)
+    occ = tuple(G.registry_index(vc, n) for n in names if n[0] in "ijklmno")
+    virt = tuple(G.registry_index(vc, n) for n in names if n[0] in "abcdefgh")
+    op = G.XOP(G.tuple_id(virt), G.tuple_id(occ), z3.BoolVal(False))
+    if braket == "bra":
+        op = G.DAGGER(op)
+    return G.NORMAL(op)
+
+
+def prec_gs_term(op, braket, parts):
+    a, b, c = parts
+    if braket == "ket":     # |Psi^(a)> <Psi^(b)| C |Psi^(c)>
+        st = _state_value(*_psi_word(a, 1))
+        v = _vev_optional([_psi_word(b, 0), (None, op), _psi_word(c, 1)])
+    else:                   # <Psi^(a)| C+ |Psi^(b)> <Psi^(c)|
+        st = _state_value(*_psi_word(c, 0))
+        v = _vev_optional([_psi_word(a, 0), (None, op), _psi_word(b, 1)])
+    return st * v
+
+
+def prec_lower_term(op, braket, lower, idx_l, parts):
+    a, b, c = parts
+    J = lambda bk: M.atom_of("ISTATE", lower, bk, idx_l)
+    if braket == "ket":     # |J^(a)> <J^(b)| C |Psi^(c)>
+        st = WORDVAL(J("ket")(a))
+        v = _vev_optional([(None, J("bra")(b)), (None, op), _psi_word(c, 1)])
+    else:                   # <Psi^(a)| C+ |J^(b)> <J^(c)|
+        st = WORDVAL(J("bra")(c))
+        v = _vev_optional([_psi_word(a, 0), (None, op), (None, J("ket")(b))])
+    return M.class_factor(lower) * st * v
+
+
+class _PrecOuter(M.NormOuterLoop):
+    """res -= (norm * projection).expand() over the splittings (k, n - k)"""
+    inner_len = 3
+    scratch = ("norm_term", "norm", "orders_projection", "projection", "term", "i1", "state")
+
+    def tagname(self, frame):
+        raise NotImplementedError
+
+    def outer(self, frame):
+        return M.fn(f"OUTER[{self.tagname(frame)}]", z3.IntSort(), z3.IntSort(), z3.RealSort())
+
+    def inner_total(self, vc, frame, r):
+        inner = M.fn(f"INNER[{self.tagname(frame)}]", z3.IntSort(), z3.IntSort(), z3.RealSort())
+        return inner(r, M.NCOMP(r, z3.IntVal(self.inner_len), z3.IntVal(0)))
+
+    def havoc(self, vc, frame, k, seq):
+        frame["res"] = Struct("NCV", val=vc.fresh_real("res"), stamps=frozenset())
+        for nm in self.scratch:
+            frame.locals.pop(nm, None)
+
+    def invariant(self, vc, frame, k, seq):
+        key = "_prec_base:" + self.tagname(frame)
+        if isinstance(k, int) and k == 0:
+            # loop entry: the value accumulated so far
+            vc.ghost[key] = ncv_value(frame["res"])
+        base = vc.ghost[key]
+        n = term(frame["order"])
+        kk = term(k)
+        O = self.outer(frame)
+        vc.assume(O(n, 0) == 0)
+        vc.assume(z3.Implies(kk >= 0, O(n, kk + 1) == O(n, kk) +
+                             c02.NORM(kk) * self.inner_total(vc, frame, n - kk)))
+        return [("state-is-what-was-there-minus-the-prefix-of-norm-times-projector",
+                 ncv_value(frame["res"]) == base - O(n, kk))]
+
+
+class _PrecInner(M.InnerSumLoop):
+    acc_var = "projection"
+    inner_len = 3
+    scratch = ("term", "i1", "state")
+
+    def tagname(self, frame):
+        raise NotImplementedError
+
+    def rest(self, frame):
+        return frame["norm_term"][1]
+
+    def havoc(self, vc, frame, k, seq):
+        frame["projection"] = Struct("NCV", val=vc.fresh_real("projection"), stamps=frozenset())
+        for nm in self.scratch:
+            frame.locals.pop(nm, None)
+
+    def invariant(self, vc, frame, k, seq):
+        r = term(self.rest(frame))
+        kk = term(k)
+        inner = M.fn(f"INNER[{self.tagname(frame)}]", z3.IntSort(), z3.IntSort(), z3.RealSort())
+        parts = self.parts_at(vc, frame, kk)
+        vc.assume(inner(r, 0) == 0)
+        vc.assume(z3.Implies(kk >= 0, inner(r, kk + 1) == inner(r, kk) +
+                             self.term_spec(vc, frame, [p.t if isinstance(p, Sym) else z3.IntVal(p)
+                                                        for p in parts])))
+        return [("projector-is-prefix-of-the-sum-over-order-splittings",
+                 ncv_value(frame["projection"]) == inner(r, kk))]
+
+
+def _gs_tag(frame):
+    return f"prec_gs|{frame['space']}|{frame['braket']}|{frame['indices']}"
+
+
+def _low_tag(frame):
+    return f"prec_low|{frame['space']}|{frame['braket']}|{frame['indices']}|{frame['lower_space']}"
+
+
+class _GsOuter(_PrecOuter):
+    def tagname(self, frame):
+        return _gs_tag(frame)
+
+
+class _GsInner(_PrecInner):
+    def tagname(self, frame):
+        return _gs_tag(frame)
+
+    def term_spec(self, vc, frame, parts):
+        op = prec_operator_atom(vc, frame["indices"], frame["braket"])
+        return prec_gs_term(op, frame["braket"], parts)
+
+
+class _LowOuter(_PrecOuter):
+    def tagname(self, frame):
+        return _low_tag(frame)
+
+
+class _LowInner(_PrecInner):
+    def tagname(self, frame):
+        return _low_tag(frame)
+
+    def term_spec(self, vc, frame, parts):
+        op = prec_operator_atom(vc, frame["indices"], frame["braket"])
+        # the documented weight of the unrestricted sum over the lower class
+        return prec_lower_term(op, frame["braket"], frame["lower_space"], frame["idx_isr"], parts)
+
+
+class _PsiCacheLoop(LoopContract):
+    """fills the table of ground state wave functions of order > n // 2 (each
+    requested once, so that a wave function never meets itself in a product)"""
+
+    def havoc(self, vc, frame, k, seq):
+        n = term(frame["order"])
+        frame["gs_psi"] = PDict({"bra": Struct("PsiCache", bk="bra", n=n),
+                                 "ket": Struct("PsiCache", bk="ket", n=n)})
+        frame.locals.pop("o", None)
+
+    def iter_spec(self, vc, frame, seq):
+        n = term(frame["order"])
+        return c02.iter_is_int_range(vc, seq, n / 2 + 1, n + 1)
+
+
+def _psicache_get(ip, obj, args, kwargs):
+    # present or not: both continuations are explored
+    if ip.vc.choose(2, "cached") == 0:
+        return None
+    return _psicache_item(ip, obj, args[0], check=False)
+
+
+def _psicache_item(ip, obj, o, check=True):
+    vc = ip.vc
+    n = obj.f["n"]
+    ot = term(o)
+    if check:
+        vc.check("cache#requested-order-is-in-the-table", z3.And(ot > n / 2, ot <= n))
+    bk = BK.index(obj.f["bk"])
+    # one object per (braket, order): a symbolic stamp, compared semantically
+    return atom_nc(c02.PSI(ot, bk), frozenset([("sym:psi-cache", (bk, ot), True)]))
+
+
+C.INLINE.add(ISR + ".validate_space")
+C.INLINE.add(ISR + "._generate_lower_spaces")
+C.STRUCT_METHODS[("PsiCache", "get")] = _psicache_get
+C.STRUCT_SUBSCRIPT["PsiCache"] = lambda ip, obj, idx: _psicache_item(ip, obj, idx)
+C.STRUCT_STORE["PsiCache"] = lambda ip, obj, idx, v: None
+
+
 @register
-class Precursor(_Assumed):
+class Precursor(Contract):
     key = ISR + ".precursor"
-    note = "n-th order precursor state (not yet under contract; the lower-class projection prefactor is checked by the bounded stand-in overlap_isr.orthonormal)"
+    props = ["C04", "C03"]
+    note = "n-th order precursor state"
+    loops = {0: _PsiCacheLoop(), 1: _GsOuter(), 2: _GsInner(), 4: _LowOuter(), 5: _LowInner()}
+    CASES = [("pp", "ph", "ia"), ("pp", "pphh", "ijab"), ("ip", "h", "i"), ("ip", "phh", "ija"),
+             ("ea", "pph", "iab"), ("dip", "phhh", "ijka"), ("ip", "pphhh", "ijkab"), ("pp", "ph", "ia,jb"),
+             ("pp", "ph", "ijab"), ("ip", "ph", "ia")]
+    split_first_choice = len(CASES)
+
+    def setup(self, vc):
+        variant, space, idx = self.CASES[vc.choose(len(self.CASES), "case")]
+        bk = BK[vc.choose(2, "braket")]
+        return {"self": new_isr(vc, variant), "order": Sym(vc.fresh_int("order")), "space": space,
+                "braket": bk, "indices": idx}
+
+    @staticmethod
+    def _valid_space(variant, space):
+        mins = VARIANTS[variant]
+        sp, lower = space, []
+        for _ in range(min(sp.count("p"), sp.count("h"))):
+            sp = sp.replace("p", "", 1).replace("h", "", 1)
+            if not sp:
+                break
+            lower.append(sp)
+        return space in mins or any(x in mins for x in lower), lower
+
+    def raises(self, vc, a):
+        variant = a["self"].attrs["variant"]
+        idx = a["indices"]
+        names = G.split_names(idx.replace(",", ""))
+        n_o = sum(1 for c in names if c[0] in "ijklmno")
+        n_v = sum(1 for c in names if c[0] in "abcdefgh")
+        bad = ("," in idx) or not self._valid_space(variant, a["space"])[0] or \
+            n_o != a["space"].count("h") or n_v != a["space"].count("p") or len(names) != n_o + n_v
+        return [("Inputerror", zor(bad_order(a["order"]), a["braket"] not in BK, bad))]
 
     def apply(self, vc, a):
         if vc.decide(zor(bad_order(a["order"]), a["braket"] not in BK)):
@@ -157,6 +399,21 @@ class Precursor(_Assumed):
         key = (a["space"], a["braket"], a["indices"])
         at = M.atom_of("PRECURSOR", *key)(term(a["order"]))
         return atom_nc(at, frozenset([("precursor", key + (str(term(a["order"])),), True)]))
+
+    def post(self, vc, a, result):
+        n = term(a["order"])
+        variant, space, bk, idx = a["self"].attrs["variant"], a["space"], a["braket"], a["indices"]
+        op = prec_operator_atom(vc, idx, bk)
+        lead = z3.If(n == 0, word_value((op,)), word_value((op, c02.PSI(n, BK.index(bk)))))
+        frame = {"space": space, "braket": bk, "indices": idx}
+        total = lead
+        real_fn = lambda tag: M.fn(f"OUTER[{tag}]", z3.IntSort(), z3.IntSort(), z3.RealSort())
+        if variant == "pp":
+            total = total - real_fn(_gs_tag(frame))(n, n + 1)
+        for lower in self._valid_space(variant, space)[1]:
+            total = total - real_fn(_low_tag(dict(frame, lower_space=lower)))(n, n + 1)
+        return [("is-the-gram-schmidt-orthogonalised-excited-wavefunction",
+                 ncv_value(result) == total)]
 
 
 # --- overlap matrices --------------------------------------------------------------
